@@ -36,7 +36,7 @@ func c02Faults(counts map[string]int, regs, reports int, tier string) []ATEpisod
 		}
 	}
 	for k := 1; k <= regs; k++ {
-		for _, act := range []string{simtc.ActFail, simtc.ActConflict, simtc.ActSilent, simtc.ActClose} {
+		for _, act := range []string{simtc.ActFail, simtc.ActFailNoCode, simtc.ActConflict, simtc.ActSilent, simtc.ActClose} {
 			if act == simtc.ActClose && tier != "thorough" && k > 1 {
 				continue
 			}
